@@ -188,6 +188,7 @@ def execute(case):
     log = EventLog(case.get('run_seed'))
     params, recs = case['params'], case['workload']
     viol, probes, sigs, traces = [], {}, [], []
+    orders = []
 
     def probe(k, n=1):
         probes[k] = probes.get(k, 0) + n
@@ -250,6 +251,7 @@ def execute(case):
                     traces.append(sched.trace)
                     continue
                 order = fac.pools[0].order if fac.pools else []
+                orders.append(f'{len(order)}:' + ','.join(map(str, order[:40])))
                 if order != sorted(order):
                     probe('delivery_order_not_submission_order')
                 sub.add('result', sorted((list(map(str, k)), sorted(v.items())) for k, v in got.items()))
@@ -295,7 +297,7 @@ def execute(case):
         finally:
             bbc.multiprocessing = real_mp
     return {'violations': viol, 'digest': log.digest(), 'probes': probes, 'faults': {}, 'evals': len(case['configs']),
-            'sigs': sigs, 'steps': steps, 'nontrivial': any(s[1] for s in sigs), 'schedule_traces': traces}
+            'sigs': sigs, 'steps': steps, 'nontrivial': any(s[1] for s in sigs), 'schedule_traces': traces, 'sets': {'delivery_orders': orders}}
 
 
 def make_explicit(case, out):
